@@ -101,7 +101,7 @@ def lookup(ex, name):
         def f(st, a): raise Throw()
         return f
     if name in ('__cxa_begin_catch',): return lambda st, a: a[0]
-    if name in ('__cxa_end_catch', '__cxa_free_exception', '__cxa_guard_release', '__cxa_guard_abort', '__cxa_atexit', '_ZNSt8ios_base4InitC1Ev', '_ZNSt8ios_base4InitD1Ev'):
+    if name in ('__cxa_end_catch', '__cxa_free_exception', '__cxa_thread_atexit', '__cxa_guard_release', '__cxa_guard_abort', '__cxa_atexit', '_ZNSt8ios_base4InitC1Ev', '_ZNSt8ios_base4InitD1Ev'):
         return lambda st, a: iv(32, 0)
     if name == '__cxa_guard_acquire':
         def f(st, a):
@@ -111,7 +111,18 @@ def lookup(ex, name):
         return f
     if name == '__gxx_personality_v0': return lambda st, a: iv(32, 0)
     if name in ('strlen',):
-        def f(st, a): return iv(64, len(mem.cstr(st, a[0], 4096)))
+        def f(st, a):
+            p = a[0]; n = 0
+            if p[0] != 'p' or p[1] is None: raise MemViolation('strlen of a null/invalid pointer')
+            while n < 4096:
+                b = mem.load(st, I8, ('p', p[1], p[2] + n))
+                if isinstance(b[2], int):
+                    if b[2] & 255 == 0: return iv(64, n)
+                else:
+                    r, _ = s.check(st, [b[2] == 0], want_model=False)
+                    if r != z3.unsat: raise Unsupported('strlen: byte %d may or may not be NUL' % n)
+                n += 1
+            raise Unsupported('strlen: no terminator within 4096 bytes')
         return f
     if name in ('memcmp', 'bcmp'):
         def f(st, a):
@@ -126,6 +137,9 @@ def lookup(ex, name):
                 if x[2] != y[2]: return iv(32, (x[2] & 255) - (y[2] & 255))
             return iv(32, 0)
         return f
+    if 'basic_stringIcSt11char_traitsIcESaIcEE' in name:
+        import strmodel
+        return strmodel.lookup(ex, name)
     if name in LIBM1 or name in LIBM2 or name in ('fabs', 'fmin', 'fmax'):
         return lambda st, a: libm(s, st, name, a)
     if name in ('isnan', '__isnan', '_ZSt5isnand'): return None
